@@ -197,6 +197,8 @@ def jobs(tier):
                 out.append({"name": "%s/%02d" % (kind, c), "kind": kind, "opts": chunk, "vals": vals})
     for name, spec, vals in container_catalogue(tier):
         out.append({"name": "%s/%s" % (name, "req" if spec["o"].get("required") else "opt"), "spec": spec, "vals": vals})
+    for itemkind in ("schema", "ctype"):
+        out.append({"name": "List[%s-with-encoded-fields]" % itemkind, "cfgitems": itemkind})
     return out
 
 
@@ -221,8 +223,14 @@ def _subst(x, tmp):
 def run_job(job, ctx):
     _setup_files(ctx.tmp)
     single = job.get("single")
+    if single and "cfgitems" in single:
+        check_config_items(ctx, single)
+        return
     if single:
         check_pair(ctx, _subst(single["spec"], ctx.tmp), _subst(single["value"], ctx.tmp), single)
+        return
+    if "cfgitems" in job:
+        check_config_items(ctx, job)
         return
     if "spec" in job:
         for v in job["vals"]:
@@ -376,3 +384,73 @@ def _untyped(spec):
 
 def _same(a, b):
     return V.plain(a) == V.plain(b)
+
+
+def check_config_items(ctx, job):
+    """typed list whose items are configurations holding fields with a non-trivial on-disk form, directly in the item
+    and one sub-schema deeper: to_python(to_basic(x)) must give equal items, and validating them again must accept"""
+    import cincoconfig as cc
+    import hashlib
+    item = cc.Schema()
+    item.b = cc.BytesField()
+    item.h = cc.BytesField("hex")
+    item.ch = cc.ChallengeField("md5")
+    item.sec = cc.SecureField(method="xor")
+    item.n = cc.IntField()
+    item.lb = cc.ListField(cc.BytesField())
+    item.inner.b = cc.BytesField()
+    item.inner.ch = cc.ChallengeField("sha1")
+    s = cc.Schema()
+    typ = cc.make_type(item, "ItemWithEncodedFields") if job["cfgitems"] == "ctype" else item
+    s.f = cc.ListField(typ)
+    case = {"cfgitems": job["cfgitems"], "job": job.get("name", "cfgitems")}
+    for n_items in (0, 1, 2):
+        cfg = s()
+        field = s._fields["f"]
+        items = []
+        for i in range(n_items):
+            it = typ() if job["cfgitems"] == "ctype" else item()
+            it.b = b"\xff\x00" + bytes([i])
+            it.h = b"\xde\xad"
+            it.ch = "pw-%d" % i
+            it.sec = "secret-%d" % i
+            it.n = i
+            it.lb = [b"\x01", b"ab"]
+            it.inner.b = b"inner-\xfe"
+            it.inner.ch = "ipw"
+            items.append(it)
+        ctx.transitions += 1
+        ctx.states += 1
+        fp = "C05|List<%s-with-encoded-fields>|" % job["cfgitems"]
+
+        def bad(what, msg):
+            ctx.violation(fp + what, "%d item(s): %s" % (n_items, msg), case, size=n_items)
+        try:
+            r1 = field.validate(cfg, items)
+            want = [cc.asdict(x) for x in r1]
+            basic = field.to_basic(cfg, r1)
+        except Exception as exc:  # noqa
+            ctx.case((job["cfgitems"], n_items), "cfgitems:raises", True)
+            bad("validate-or-to_basic-raises", "raised %r" % (exc,))
+            continue
+        if not R.is_plain_data(basic):
+            bad("to_basic-not-plain", "to_basic is not plain data: %s" % V.show(basic, 100))
+        try:
+            back = field.to_python(cfg, basic)
+            got = [cc.asdict(x) for x in back]
+        except Exception as exc:  # noqa
+            ctx.case((job["cfgitems"], n_items), "cfgitems:to_python-raises", True)
+            bad("to_python-raises", "to_python(to_basic(items)) raised %r" % (exc,))
+            continue
+        ctx.case((job["cfgitems"], n_items), "cfgitems:%d" % n_items, n_items > 0)
+        if V.plain(got) != V.plain(want):
+            diff = [k for a, b in zip(got, want) for k in a if V.plain(a[k]) != V.plain(b[k])]
+            bad("roundtrip|" + ",".join(sorted(set(diff))), "items come back different at %s: %s" % (sorted(set(diff)), V.show(got, 160)))
+            continue
+        try:
+            again = field.validate(cfg, back)
+            if V.plain([cc.asdict(x) for x in again]) != V.plain(want):
+                bad("roundtrip-revalidate", "validating the decoded items changes them")
+        except Exception as exc:  # noqa
+            bad("roundtrip-revalidate-raises", "validating the decoded items raised %r" % (exc,))
+    ctx.traces += 1
